@@ -249,6 +249,10 @@ def render_literal(rng, text, depth=0):
 
 
 def gen_text(rng, maxlen=4):
+    if rng.random() < 0.12:
+        # long literal (beyond the exhaustive-ish bound): 9..40 chars
+        n = rng.choice([9, 15, 16, 17, 24, 31, 32, 33, 40])
+        return "".join(rng.choice(ALPHABET) for _ in range(n))
     n = rng.choice([0, 1, 1, 2, 2, 3, 4][: maxlen + 3])
     return "".join(rng.choice(ALPHABET) for _ in range(n))
 
